@@ -4,6 +4,7 @@ From Coq Require Import List String NArith.
 From FP Require Import Model.Chars Model.Winnow Model.Ast Model.Args Model.Format.
 From FP Require Import Spec.Decimal Spec.FormatSpec.
 From FP Require Properties.C14o.
+From FP Require Model.Compile.
 Import ListNotations.
 Local Open Scope N_scope.
 
@@ -31,6 +32,9 @@ Check C14o.C14o_parse_short_backslash : forall c os' rest es,
   not_starting_with Octal rest -> parse_format (bsl :: c :: os' ++ rest) = (Ok es, []) ->
   exists l rest' es', es = ESpecial XBackslash :: ELit (c :: os' ++ l) :: es'
     /\ Forall Plain l /\ rest = l ++ rest' /\ Boundary rest' /\ parse_format rest' = (Ok es', []).
+Check C14o.C14o_parsed_codes_are_scalar : forall fmt i r n,
+  parse_format i = (Ok fmt, r) -> In (ESpecial (XAscii n)) fmt ->
+  n <= 511 /\ Compile.scalar_or_zero n = n.
 Check C14o.C14o_pin :
   Seg (chars "\12") [ESpecial XBackslash; ELit (chars "12")]
   /\ Seg (chars "\7") [ESpecial XBackslash; ELit (chars "7")]
